@@ -36,6 +36,8 @@ pub struct Op {
     pub stub: bool,
     /// both `run` and `slow` are crate code (spelling equivalence): a panic on both sides agrees
     pub differential: bool,
+    /// not part of the C16 catalogue (the op reaches an allow-listed todo!() stub by design)
+    pub skip_catalogue: bool,
     /// free text shown in evidence
     pub note: &'static str,
 }
@@ -59,6 +61,7 @@ impl Op {
             weight: 1.0,
             stub: false,
             differential: false,
+            skip_catalogue: false,
             note: "",
         }
     }
